@@ -18,6 +18,7 @@ STATUS_RE = re.compile(r'^(\d{3})(?:\s+([\s\w]*))$')
 HEADER_RE = re.compile('[\\x00-\\x1F\\x7F()<>@,;:/\\[\\]={} \\t\\\\"]')
 CTL_RE = re.compile('[\\x00\\r\\n]')
 NOT_LATIN1_RE = re.compile('[^\\x00-\\xff]')
+CHUNK_SIZE_RE = re.compile(b'^[0-9A-Fa-f]+$')
 
 # errors
 BAD_FIRST_LINE = 0
@@ -452,10 +453,10 @@ class HttpParser:
             return None, None
         line, rest_chunk = data[:idx], data[idx + 2 :]
         chunk_size = line.split(b';', 1)[0].strip()
-        try:
-            chunk_size = int(chunk_size, 16)
-        except ValueError:
+        # chunk-size = 1*HEXDIG: int() would also take a sign, '0x' or '_'
+        if not CHUNK_SIZE_RE.match(chunk_size):
             raise InvalidChunkSize(chunk_size)
+        chunk_size = int(chunk_size, 16)
 
         if chunk_size == 0:
             # the last chunk is only over after the trailer section (if any) and the final CRLF
